@@ -250,12 +250,16 @@ class MediaRequestBase(RequestHandlerBase):
         if representation.encrypted:
             traf_modified = self.update_traf_if_required(options, traf)
             moof_modified = moof_modified or traf_modified
-        if moof_modified:
-            tfhd = traf.find_child('tfhd')
-            if tfhd is not None:
-                # force base_data_offset to be re-calculated when the
-                # tfhd box is encoded
-                tfhd.base_data_offset = None
+        tfhd = traf.find_child('tfhd')
+        if tfhd is not None:
+            # the segment is encoded at a different position from the one
+            # it is stored at, even when the moof box has not been modified.
+            # Force base_data_offset to be re-calculated when the
+            # tfhd box is encoded
+            tfhd.base_data_offset = None
+        # a data_offset field cannot be added to the trun box once it has
+        # been encoded, which would be needed to re-write its offset
+        traf.trun.flags |= mp4.TrackFragmentRunBox.data_offset_present
         if traf_modified:
             saio = traf.find_child('saio')
             senc = traf.find_child('senc')
